@@ -56,6 +56,7 @@ var groupMenu = []group{
 	{"-k", "k1", false, 0}, {"-k", "a,b", false, 0}, {"-k", "k 1", false, 0},
 	{"-p", "r", false, 0}, {"-p", "wa", false, 0}, {"-p", "rq", false, 0},
 	{"-w", "/etc/passwd", false, 0}, {"-w", "/tmp/my file", false, 0},
+	{"-w", "", false, 0}, {"-p", "", false, 0}, // flags that are ON THE LINE with a zero-length value: they take part in every rule about -w / -p
 	{"-D", "", true, 0}, {"", "stray", false, 0}, {"--", "", true, 0}, {"", "/trailing/word", false, 0},
 	{"", "", false, 0}, // the EMPTY word ('' on the line): a word like any other
 }
@@ -185,9 +186,18 @@ func reference(gs []group) expected {
 				}
 			}
 		case g.Flag == "-w":
-			nw++
+			// a rule has one path: two -w arguments cannot both be reflected - unless all but one of them are
+			// the empty text, of which nothing can be lost (the line may be accepted or rejected then)
+			if g.Arg != "" || nw == 0 {
+				if g.Arg != "" && e.Path == "" && nw > 0 {
+					nw--
+				}
+				nw++
+			}
 			cat["watch"] = true
-			e.Path = g.Arg
+			if g.Arg != "" || e.Path == "" {
+				e.Path = g.Arg
+			}
 		}
 	}
 	switch {
